@@ -71,8 +71,11 @@ def gen_crs(r):
                             {"proj": "merc", "pm": -90}, {"proj": "laea", "lat_0": 50, "lon_0": 5, "pm": 10, "ellps": "WGS84"},
                             {"proj": "eqc", "pm": 180, "ellps": "WGS84"}]), None
     if k == "pm_geographic":
+        # incl. prime meridians pyproj reports in GRADS ('paris' by name, EPSG:4807 NTF (Paris), the base of EPSG:27571)
         return k, r.choice(["+proj=longlat +ellps=WGS84 +pm=180 +no_defs", {"proj": "longlat", "pm": "paris", "ellps": "WGS84"},
-                            {"proj": "longlat", "pm": 10, "datum": "WGS84"}, {"proj": "longlat", "pm": -90, "ellps": "WGS84"}]), None
+                            {"proj": "longlat", "pm": "paris", "ellps": "WGS84"}, "EPSG:4807",
+                            {"proj": "longlat", "pm": 10, "datum": "WGS84"}, {"proj": "longlat", "pm": -90, "ellps": "WGS84"},
+                            {"proj": "longlat", "pm": "lisbon", "ellps": "WGS84"}]), None
     if k == "epsg_merc":         # CRSs with an area of use and x = 0 at lon 0
         return k, r.choice(["EPSG:3857", "EPSG:3395"]), None
     if k == "longlat":
@@ -279,7 +282,31 @@ def gen_freeze_cases(ctx):
                       "chunks": r.choice([1, 2, 3, 5, 100])})
     cases += gen_optimize_cases(ctx)
     cases += gen_two_step_cases(ctx)
+    cases += gen_named_pm_cases(ctx)
     return cases
+
+
+def gen_named_pm_cases(ctx):
+    """geographic CRSs whose prime meridian pyproj reports in a non-degree unit (grads), with data across THAT CRS's
+    antimeridian and every antimeridian mode: the class behind the residual defect of the modify_crs fix"""
+    r = ctx.rng
+    out = []
+    for _ in range(ctx.n(16, 160)):
+        crs = r.choice([{"proj": "longlat", "pm": "paris", "ellps": "WGS84"}, "EPSG:4807",
+                        {"proj": "longlat", "pm": "paris", "datum": "WGS84"}])
+        pm = 2.33722917
+        n = r.choice([3, 6, 12])
+        lons = [((pm + 180.0 + r.uniform(-6, 6)) + 180.0) % 360.0 - 180.0 for _ in range(n)]
+        lons[0], lons[1] = ((pm + 179.0) + 180.0) % 360.0 - 180.0, ((pm - 179.0) + 180.0) % 360.0 - 180.0
+        lats = [r.uniform(-60, 60) for _ in range(n)]
+        fz = {"resolution": res_json(r.choice([0.5, 0.25, 1.0]))} if r.random() < 0.7 else {"shape": [r.choice([2, 5, 9]), r.choice([2, 6, 11])]}
+        fz["antimeridian_mode"] = r.choice(["modify_crs", "modify_crs", "modify_extents", "global_extents", None])
+        if fz["antimeridian_mode"] is None:
+            del fz["antimeridian_mode"]
+        out.append({"crs": crs, "crs_kind": "pm_named_grad", "points": "antimeridian_of_crs", "pattern": "res_f" if "resolution" in fz else "shape_f",
+                    "via": None, "ctor": {}, "freeze": fz, "lons": [hexs(v) for v in lons], "lats": [hexs(v) for v in lats],
+                    "shape2d": None, "kind": r.choice(["numpy", "dask", "swath"]), "chunks": 3})
+    return out
 
 
 def gen_two_step_cases(ctx):
@@ -719,7 +746,8 @@ def one_sample(ctx, sample):
 
 def run(ctx):
     ctx.rule = ("freeze: PRNG over CRS (longlat x3 spellings, EPSG:4326, laea incl. proj_info, stere N/S, merc, eqc, EPSG:3035, EPSG:3857/3395, "
-                "non-Greenwich prime meridians: EPSG:27571 and +pm= on lcc/laea/merc/eqc/longlat; two-step: the next granule fitted on the "
+                "non-Greenwich prime meridians: EPSG:27571, EPSG:4807 and +pm= (numbers, paris [grads], lisbon) on lcc/laea/merc/eqc/longlat, "
+                "with dedicated grad-unit cases across that CRS's own antimeridian in every mode; two-step: the next granule fitted on the "
                 "CRS a previous antimeridian freeze handed out; bounds exactly on lon 0 / lat 0 = projected 0.0) x point "
                 "clouds (boxes, dyadic, antimeridian-crossing, global, |span| near 355, poles, zero span in x / y, single and repeated "
                 "points, NaN / 1e30 / out-of-range sprinkles, all-NaN) x argument patterns (resolution scalar/int/pair via constructor "
